@@ -39,8 +39,8 @@ class C04:
     LEVEL = "exploration"
     HANG_IS_VIOLATION = True   # "... and that happens after finitely many steps"
     TIERS = {
-        "quick": {"runs": 300000, "budget_s": 170, "chunk": 1500, "run_timeout_s": 20},
-        "thorough": {"runs": 12000000, "budget_s": 1700, "chunk": 5000, "run_timeout_s": 20},
+        "quick": {"runs": 300000, "budget_s": 170, "chunk": 1500, "run_timeout_s": 30},
+        "thorough": {"runs": 12000000, "budget_s": 1700, "chunk": 5000, "run_timeout_s": 30},
     }
     RULE = ("one case = (a) a generated document pair of one family with drawn BuildOptions + a 0-300 step schedule "
             "of public edit-API calls + an observation pattern (p in {1, .5, .1}, seeded), or (b) a "
